@@ -786,10 +786,18 @@ def gen_executor(ev):
         "self._report_step_counts()",
         "await self._report_run(run)",
     ])
-    skeleton("_drain_for_unexpected_input_changes", [
-        "self.scheduler.draining = True",
-        "await self.reporter('ERROR', 'The scheduler is draining due to unexpected input changes.')",
-    ])
+    # _drain_for_unexpected_input_changes: TRANSLATED (does it set scheduler.draining?); any statement
+    # other than that assignment and reporter calls fails closed
+    f = find_function(tree, "_drain_for_unexpected_input_changes", "Executor")
+    if [a.arg for a in f.args.args] != ["self"]:
+        raise TranslatorError("_drain_for_unexpected_input_changes signature changed")
+    t = Table("_drain_for_unexpected_input_changes", [
+        ("self.scheduler.draining = True", "let draining_set := true in"),
+        (R(r"await self\.reporter\('(ERROR|WARNING)', '[^']*'\)"), ""),
+    ], [], final="draining_set")
+    out.append("(* Executor._drain_for_unexpected_input_changes: does it set scheduler.draining? *)\n"
+               "Definition drain_for_changes_gen : bool :=\n  let draining_set := false in\n  "
+               + t.block(body_without_docstring(f), None) + ".")
     f = find_function(tree, "_compute_inp_step_hash", "Executor")
     txt = re.sub(r"\s+", " ", ast.unparse(f))
     for need in ("result = await self._run_work_thread(run, functools.partial(compute_inp_hashes, inp_hashes))",
@@ -810,13 +818,26 @@ def gen_executor(ev):
     out.append("Definition TAG_SUCCESS : N := 1. Definition TAG_FAIL : N := 2. Definition TAG_DEFERRED : N := 3.\n"
                "Definition determine_tag_gen (interrupted_defer run_unavailable run_unfresh run_success : bool) : N :=\n  "
                + t.block(body_without_docstring(f), None) + ".")
-    skeleton("_report_run", [
-        "pages = await self._build_report_pages(run)",
-        "tag = self._determine_tag(run)",
-        "if tag == 'FAIL' and (not self.keep_going): self.scheduler.draining = True",
-        "await self.reporter(tag, run.description, pages)",
-    ])
-    out.append("Definition report_drains_gen (tag : N) (keep_going : bool) : bool := (tag =? TAG_FAIL) && negb keep_going.")
+    # _report_run: TRANSLATED statement by statement (which tag, under which option, drains)
+    f = find_function(tree, "_report_run", "Executor")
+    if [a.arg for a in f.args.args] != ["self", "run"]:
+        raise TranslatorError("_report_run signature changed")
+    tag_atoms = {f"tag == '{name}'": f"(tag =? {v})" for name, v in TAGS.items()}
+    tag_atoms.update({f"tag != '{name}'": f"(negb (tag =? {v}))" for name, v in TAGS.items()})
+    tag_atoms["self.keep_going"] = "keep_going"
+    t = Table("_report_run", [
+        ("pages = await self._build_report_pages(run)", ""),
+        ("tag = self._determine_tag(run)", ""),
+        ("self.scheduler.draining = True", "let drains := true in"),
+        ("await self.reporter(tag, run.description, pages)", ""),
+    ], [], final="drains", cond_fn=_bool_expr("_report_run", tag_atoms))
+    body = body_without_docstring(f)
+    if not body or _norm(body[0]) != "pages = await self._build_report_pages(run)" \
+            or "tag = self._determine_tag(run)" not in [_norm(x) for x in body]:
+        raise TranslatorError("_report_run: the tag is not computed by _determine_tag(run)")
+    out.append("(* Executor._report_run: does this report drain the scheduler? *)\n"
+               "Definition report_drains_gen (tag : N) (keep_going : bool) : bool :=\n  let drains := false in\n  "
+               + t.block(body, None) + ".")
     out.append("Definition executor_skeletons_as_reviewed : bool := true.")
 
     # hash.compute_inp_hashes: a changed or vanished input is reported in new_hashes and in messages
